@@ -100,6 +100,13 @@ func verifObserveRest(st *state.State) []string {
 	}
 	sort.Strings(ws)
 	out = append(out, ws...)
+	pw, pts := st.PendingWarnings()
+	var pws []string
+	for _, w := range pw {
+		pws = append(pws, w.String())
+	}
+	sort.Strings(pws)
+	out = append(out, fmt.Sprintf("pending-warnings %v at %s", pws, pts.UTC().Format(time.RFC3339Nano)))
 	var dd interface{}
 	st.Get("gk", &dd)
 	out = append(out, fmt.Sprintf("data gk=%v", dd))
@@ -228,7 +235,22 @@ func verifRunC05(c *verifsim.Ctx) {
 				c.Logf("notice %s", id)
 			}
 		case 9:
-			st.Warnf("warning %d", c.Draw("warn", 4))
+			switch c.Draw("warn-kind", 4) {
+			case 0:
+				st.Warnf("warning %d", c.Draw("warn", 4))
+			case 1: // explicit options, incl. "always repeat"
+				ra := []time.Duration{0, time.Minute, 36 * time.Hour}[c.Draw("warn-repeat-after", 3)]
+				st.AddWarning("warning opt "+strconv.Itoa(c.Draw("warn", 4)), &state.AddWarningOptions{RepeatAfter: ra})
+			case 2:
+				st.AddWarning("warning nil-options "+strconv.Itoa(c.Draw("warn", 3)), nil)
+			case 3: // acknowledge what was shown / drop one
+				if c.Draw("ack-or-remove", 2) == 0 {
+					_, ts := st.PendingWarnings()
+					st.OkayWarnings(ts)
+				} else {
+					st.RemoveWarning("warning " + strconv.Itoa(c.Draw("warn", 4)))
+				}
+			}
 		case 10:
 			st.Set("gk", c.Draw("gk", 100))
 		case 11:
